@@ -315,5 +315,11 @@ def check(model, rep):
     tables = UnitTables(model)
     check_tables(model, rep, tables, R='C07.dep.table')
     check_to(model, rep, SX(model, tables), tables, R='C07.dep.to')
+    # snapshot/export convert recorded samples to caller-chosen units: the pairing and conversion rules of C18
+    from sa.core import Report
+    from checks import c18
+    dep = Report('C18')
+    c18.check(model, dep)
+    rep.absorb(dep, {'C18.pairing': 'C07.dep.snapshot-pairing', 'C18.export': 'C07.dep.export', 'C18.interp': 'C07.dep.snapshot-interp'})
     rep.require('C07.raw', 300, 'one instance per evaluated function')
     rep.assume('quantity-level operators and comparisons are unit-blind up to the comparison tolerance (C05, C06; known finding K2)')
